@@ -291,6 +291,57 @@ impl Ctx {
         }
     }
 
+    /// Evaluates an explicitly enumerated list of cases on all workers (no generator involved).
+    pub fn run_enumeration(&mut self, name: &str, cases: &[Case], eval: &(dyn Fn(&Case) -> Outcome + Sync), exhaustive_of: &str) {
+        if self.failed() {
+            return;
+        }
+        let t0 = std::time::Instant::now();
+        let workers = self.workers.max(1);
+        let stop = AtomicBool::new(false);
+        let results: Mutex<Vec<(usize, Outcome)>> = Mutex::new(Vec::new());
+        std::thread::scope(|s| {
+            for w in 0..workers {
+                let (stop, results) = (&stop, &results);
+                s.spawn(move || {
+                    let mut local = vec![];
+                    let mut i = w;
+                    while i < cases.len() {
+                        if stop.load(Ordering::Relaxed) {
+                            break;
+                        }
+                        let o = eval(&cases[i]);
+                        if o.verdict.is_err() {
+                            // keep going only for known findings; an unknown one stops everybody soon enough
+                            local.push((i, o));
+                            if local.iter().filter(|x| x.1.verdict.is_err()).count() > 200 {
+                                stop.store(true, Ordering::Relaxed);
+                            }
+                        } else {
+                            local.push((i, o));
+                        }
+                        i += workers;
+                    }
+                    results.lock().expect("lock").extend(local);
+                });
+            }
+        });
+        let mut results = results.into_inner().expect("lock");
+        results.sort_by_key(|x| x.0);
+        let before_nt = self.tally.nontrivial_hashes.len();
+        let n = results.len();
+        let complete = n == cases.len();
+        for (i, o) in results {
+            self.record_direct(name, &cases[i], o);
+        }
+        self.tally.campaigns.push(json!({
+            "name": name, "engine_cases": n, "enumerated_space": cases.len(),
+            "distinct_nontrivial": self.tally.nontrivial_hashes.len() - before_nt,
+            "exhaustive": complete && self.failure.is_none(), "space": exhaustive_of,
+            "wall_s": t0.elapsed().as_secs_f64(),
+        }));
+    }
+
     /// Records a directly executed (non-proptest) case: replays, enumerations.
     pub fn record_direct(&mut self, campaign: &str, case: &Case, out: Outcome) {
         self.tally.evaluations += out.evals.max(1);
